@@ -204,11 +204,12 @@ func (w *vWorld) vSetU2F(user string, tok *vSoftU2F, index int64) {
 
 type vFakeVIP struct {
 	sync.Mutex
-	srv        *httptest.Server
-	otp        map[string]string // user -> currently valid 6 digit OTP
-	tx         map[string]*vVIPTx
-	txSeq      int
-	pushStarts []string // users for which a push was started
+	srv         *httptest.Server
+	otp         map[string]string // user -> currently valid 6 digit OTP
+	tx          map[string]*vVIPTx
+	txSeq       int
+	pushStarts  []string // users for which a push was started
+	autoApprove bool     // every push is approved by the device at once (C19 server mode)
 }
 
 type vVIPTx struct {
@@ -269,7 +270,7 @@ func (f *vFakeVIP) serve(w http.ResponseWriter, r *http.Request) {
 		user := vFirst(vReUser, s)
 		f.txSeq++
 		id := fmt.Sprintf("tx-%d", f.txSeq)
-		f.tx[id] = &vVIPTx{User: user}
+		f.tx[id] = &vVIPTx{User: user, Approved: f.autoApprove}
 		f.pushStarts = append(f.pushStarts, user)
 		env(fmt.Sprintf(`<AuthenticateUserWithPushResponse xmlns="https://schemas.symantec.com/vip/2011/04/vipuserservices"><requestId>%s</requestId><status>6040</status><statusMessage>Mobile push request sent</statusMessage><transactionId>%s</transactionId><pushDetail><pushCredentialId>TOKEN-%s</pushCredentialId><pushSent>true</pushSent></pushDetail></AuthenticateUserWithPushResponse>`, reqID, id, user))
 	case strings.Contains(s, "PollPushStatusRequest"):
